@@ -6,7 +6,7 @@ import os
 import struct
 
 from vf import cli
-from vf.core import EnumPart, HarnessError, HypPart, Oracle, VERIF_DIR
+from vf.core import EnumPart, HarnessError, HypPart, Oracle, VERIF_DIR, case_digest
 from vf.gen import keys as K
 from vf.gen import mbi as G
 from vf.ref import mbi_rom
@@ -143,6 +143,18 @@ def _mask_ivt(d: bytes) -> bytes:
     return bytes(d)
 
 
+def _load_only(config_path: str):
+    """The call sequence of `nxpimage mbi export` up to the loaded object (no export yet)."""
+    from spsdk.image.mbi.mbi import get_mbi_class
+    from spsdk.utils.misc import load_configuration
+
+    config_data = load_configuration(config_path)
+    config_dir = os.path.dirname(config_path)
+    mbi_obj = get_mbi_class(config_data)()
+    mbi_obj.load_from_config(config_data, search_paths=[config_dir, "."])
+    return mbi_obj, config_data
+
+
 def run_case(case, o: Oracle) -> None:
     b = G.materialise(case, _workdir())
     cls = b.cls
@@ -157,6 +169,27 @@ def run_case(case, o: Oracle) -> None:
         return
     obj, img = res
     o.artifact("image", img)
+    if int(case_digest(case)[10:12], 16) % 3 == 0:
+        # an object of the same configuration whose read-only length properties are looked at before its first export
+        img_q = None
+        with o.spsdk("queried_first"):
+            obj_q, _ = _load_only(b.config_path)
+            for name in ("total_len", "app_len", "total_length_for_cert_block", "rkth"):
+                try:
+                    getattr(obj_q, name, None)
+                except Exception:  # noqa: BLE001 - a query that is not available before the export is not the point here
+                    pass
+            str(obj_q)
+            img_q = bytes(obj_q.export_image().export())
+        if img_q is not None:
+            o.label("queried_first")
+            o.eq("queried_first", "length", len(img_q), len(img))
+            try:
+                mbi_rom.check(img_q, info, b.user_key)
+            except mbi_rom.Reject as exc:
+                o.fail("queried_first", exc.code, "image of an object whose length properties were read before the export: " + str(exc))
+            if G.deterministic_build(b):
+                o.check("queried_first", img_q == img, "bytes", first_diff(img_q, img))
     rep = _judge(case, b, o, img, obj, info)
 
     # ------------------------------------------------------------------ (h) the same configuration through `nxpimage mbi export`
@@ -226,6 +259,23 @@ def _judge(case, b: G.Built, o, img: bytes, obj, info: dict):
             o.fail("export_again", exc.code, "second export of the same object: " + str(exc))
     if info["layout"] == "ivt":
         o.eq("rom_accepts", "image_type", rep["header"]["image_type"], cls["image_type"])
+    # history: the application of the same object is replaced by a longer one, then the object is exported again; lengths, offsets and
+    # the protected range follow the new content
+    if obj is not None and info["layout"] == "ivt" and img2 is not None and not b.reloc:
+        grown = G.pad4(b.app) + G.stretch(b"c02-grown" + bytes(case["opt"]["payload"]["seed"]), 4 * (1 + len(b.app) % 61))
+        img3 = None
+        with o.spsdk("export_changed"):
+            obj.app = grown
+            img3 = bytes(obj.export_image().export())
+        if img3 is not None:
+            o.label("export_changed")
+            try:
+                rep3 = mbi_rom.check(img3, info, b.user_key)
+                body3 = rep3["body"] if rep3.get("scheme") in ("rsa", "ecc") else img3
+                o.check("export_changed", _mask_ivt(body3[: len(grown)]) == _mask_ivt(grown), "payload", first_diff(_mask_ivt(body3[: len(grown)]), _mask_ivt(grown)))
+                o.eq("export_changed", "length_growth", len(img3) - len(img), len(grown) - len(G.pad4(b.app)))
+            except mbi_rom.Reject as exc:
+                o.fail("export_changed", exc.code, "export after the application of the object was replaced: " + str(exc))
 
     # ------------------------------------------------------------------ what the model found is what was given
     want_app = G.pad4(b.app)
